@@ -3,8 +3,8 @@ package queue
 import (
 	"fmt"
 	"os"
-	"strconv"
 	"sort"
+	"strconv"
 	"strings"
 	"testing"
 	"time"
@@ -274,7 +274,8 @@ func TestVerif_C24(t *testing.T) {
 	if r.Thorough() {
 		scs = append(scs, c24Scenario{"2w-flush-b2-notimeout", [][]int{{1, 1}, {1}}, 1, 2, 0, false})
 	}
-	for _, sc := range scs {
+	for i, sc := range scs {
+		opts.Deadline = r.SliceDeadline(i, len(scs))
 		st := vs.Explore(t, opts, c24Body(sc))
 		r.Eval(int(st.Executions))
 		r.Transition(int(st.ChoicePts))
@@ -286,7 +287,7 @@ func TestVerif_C24(t *testing.T) {
 		}
 		r.Sample(map[string]any{"scenario": sc.name, "executions": st.Executions, "pruned_redundant": st.Redundant, "max_choice_depth": st.MaxDepth, "distinct_batchings": len(st.Outcomes), "replayed": st.Replays, "hb_states": st.StatesSeen, "pruned_by_state": st.Pruned})
 		if st.Capped {
-			r.Cap("scenario %s: execution cap %d reached", sc.name, opts.MaxExecs)
+			r.Cap("scenario %s: stopped at its execution cap (%d, a quarter of that per shard process) or at its share of the time budget before completing deviation bound %d", sc.name, opts.MaxExecs, opts.Deviations)
 		}
 		for _, d := range st.Divergences {
 			r.Violation("C24:harness-nondeterminism", d, nil)
